@@ -14,7 +14,7 @@ pub fn def() -> PropDef {
         job_level,
         run_job,
         replay,
-        rule: "dictionaries: ALL sets of 1-2 entries (quick; thorough: 1-3) with key sets from {ab, ac, bc, abc} and outputs from a 6-string pool (lower case, capitalised, sharing a prefix with another output, containing the chord letters, ending in a backspace, ending in a space), plus dictionaries with a follow-up entry; x smart-space {none, add-space-only, full}. Structured histories: for EVERY entry EVERY permutation of its keys with inter-press gaps from {0,1,deadline-1}, with and without lsft held by the user, keys then released in both orders, followed by nothing / one further non-chord key; follow-up chords typed after their first chord; two-round scenarios: every ordered pair of entries (including the same entry twice), the first chord plain / interrupted by another key while held / held past the deadline, idle past idle-reactivate-time, then the second chord in every press order. Generic histories: ALL physically consistent histories of D steps over press/release of a,b,c,lsft + tick 1. Oracle: the OS output is replayed into a text-buffer model (US layout, shift state, backspace deletes one character): after a completed chord the visible text is exactly the entry's expansion (first letter capitalised when the user holds shift: either form accepted) plus the smart space when enabled, then the continuation key; histories in which no entry's key set is ever down together leave exactly the typed letters; the OS shift state at the end equals the physical one; nothing is held after release.",
+        rule: "dictionaries: ALL sets of 1-2 entries (quick; thorough: 1-3) with key sets from {ab, ac, bc, abc} and outputs from a 6-string pool (lower case, capitalised, sharing a prefix with another output, containing the chord letters, ending in a backspace, ending in a space), plus dictionaries with a follow-up entry; x smart-space {none, add-space-only, full}. Structured histories: for EVERY entry EVERY permutation of its keys with inter-press gaps from {0,1,deadline-1}, without shift / with lsft / with rsft held by the user / with both shifts pressed and one of them released again before the chord, keys then released in both orders, followed by nothing / one further non-chord key; follow-up chords typed after their first chord; two-round scenarios: every ordered pair of entries (including the same entry twice), the first chord plain / interrupted by another key while held / held past the deadline, idle past idle-reactivate-time, then the second chord in every press order. Generic histories: ALL physically consistent histories of D steps over press/release of a,b,c,lsft + tick 1. Oracle: the OS output is replayed into a text-buffer model (US layout, shift state, backspace deletes one character): after a completed chord the visible text is exactly the entry's expansion (first letter capitalised when the user holds shift: either form accepted) plus the smart space when enabled, then the continuation key; histories in which no entry's key set is ever down together leave exactly the typed letters; the OS shift state at the end equals the physical one; nothing is held after release.",
         assumptions: &["US layout text model; output-character-mappings not exercised", "one dictionary per process at a time (zippychord state is process-global)"],
         required_level,
         min_outcomes: 3,
@@ -45,7 +45,7 @@ impl Dict {
     }
     fn cfg(&self) -> String {
         format!(
-            "(defcfg)\n(defsrc a b c d lsft)\n(deflayer base a b c d lsft)\n(defzippy file on-first-press-chord-deadline {DEADLINE} idle-reactivate-time 5 smart-space {})\n",
+            "(defcfg)\n(defsrc a b c d lsft rsft)\n(deflayer base a b c d lsft rsft)\n(defzippy file on-first-press-chord-deadline {DEADLINE} idle-reactivate-time 5 smart-space {})\n",
             ["none", "add-space-only", "full"][self.smart as usize]
         )
     }
@@ -224,7 +224,11 @@ fn run_structured(d: &Dict, st: &mut Stats, found: &mut Vec<Violation>) {
             let ng = keys.len() - 1;
             let mut gv = vec![0usize; ng];
             loop {
-                for shift in [false, true] {
+                // shift modes: 0 none, 1 lsft held, 2 rsft held, 3 both pressed and rsft released before the chord
+                // (lsft still held), 4 both pressed and lsft released before the chord (rsft still held)
+                for smode in 0..5u8 {
+                    let shift = smode > 0;
+                    let held_shift = if smode == 2 || smode == 4 { kc("rsft") } else { lsft };
                     for rel_rev in [false, true] {
                         for cont in [false, true] {
                             if found.len() >= 4 {
@@ -232,7 +236,14 @@ fn run_structured(d: &Dict, st: &mut Stats, found: &mut Vec<Violation>) {
                             }
                             let mut h = vec![Ev::T(10)];
                             if shift {
-                                h.push(Ev::P(lsft));
+                                h.push(Ev::P(held_shift));
+                                h.push(Ev::T(3));
+                            }
+                            if smode >= 3 {
+                                let other = if smode == 3 { kc("rsft") } else { lsft };
+                                h.push(Ev::P(other));
+                                h.push(Ev::T(3));
+                                h.push(Ev::R(other));
                                 h.push(Ev::T(3));
                             }
                             for (i, pi) in pp.iter().enumerate() {
@@ -263,7 +274,7 @@ fn run_structured(d: &Dict, st: &mut Stats, found: &mut Vec<Violation>) {
                             // shift is still physically held here: check restoration, then release
                             let n_check = h.len();
                             if shift {
-                                h.push(Ev::R(lsft));
+                                h.push(Ev::R(held_shift));
                             }
                             h.push(Ev::T(20));
                             st.evaluations += 1;
